@@ -175,6 +175,24 @@ impl Drop for Scratch {
     }
 }
 
+/// removes scratch roots left behind by engine processes that no longer exist (killed runs)
+pub fn cleanup_stale_roots() {
+    let base = match scratch_root().parent() {
+        Some(p) => p.to_path_buf(),
+        None => return,
+    };
+    if let Ok(rd) = std::fs::read_dir(&base) {
+        for e in rd.flatten() {
+            let name = e.file_name().to_string_lossy().into_owned();
+            if let Some(pid) = name.strip_prefix("vp-").and_then(|p| p.parse::<u32>().ok()) {
+                if pid != std::process::id() && !Path::new(&format!("/proc/{}", pid)).exists() {
+                    let _ = std::fs::remove_dir_all(e.path());
+                }
+            }
+        }
+    }
+}
+
 pub fn cleanup_root() {
     if std::env::var("VP_KEEP").is_ok() || (std::env::var("VP_KEEP_ON_TIMEOUT").is_ok() && TIMED_OUT.load(Ordering::SeqCst) > 0) {
         return;
